@@ -1483,6 +1483,12 @@ def possibly_undefined(chk, prog, files):
                     bound.add(x.name)
                 elif isinstance(x, (ast.FunctionDef, ast.ClassDef, ast.AsyncFunctionDef)):
                     bound.add(x.name)
+                    if not isinstance(x, ast.ClassDef):       # parameters of a nested function are bound inside it (over-approximated to the whole body: never an alarm)
+                        for p in x.args.posonlyargs + x.args.args + x.args.kwonlyargs + [q_ for q_ in (x.args.vararg, x.args.kwarg) if q_ is not None]:
+                            bound.add(p.arg)
+                elif isinstance(x, ast.Lambda):
+                    for p in x.args.posonlyargs + x.args.args + x.args.kwonlyargs + [q_ for q_ in (x.args.vararg, x.args.kwarg) if q_ is not None]:
+                        bound.add(p.arg)
                 elif isinstance(x, (ast.Global, ast.Nonlocal)):
                     bound.update(x.names)
                 elif isinstance(x, ast.MatchAs) and x.name:
